@@ -15,7 +15,7 @@ GInit == Init /\ hist = <<>>
 GNext == \E c \in Clients :
            \/ (\E k \in AllKeys : Begin(c, k)) /\ hist' = hist
            \/ Get(c) /\ hist' = Append(hist, <<c, "get", key[c], key[c] \in index, -1>>)
-           \/ Expand(c) /\ hist' = hist
+           \/ ExpandKey(c) /\ hist' = hist
            \/ Put(c) /\ hist' = Append(hist, <<c, "put", key[c], key[c] \in index, PutVictim(order, key[c], Capacity)>>)
            \/ Finish(c) /\ hist' = hist
 GSpec == GInit /\ [][GNext]_gvars
